@@ -1496,6 +1496,10 @@ func TestVerifC05(t *testing.T) {
 			out.Case(line, ans, true)
 		}
 	}
+	// the statistics across epochs: call sequences on a ProxyStats, then real sessions with epoch
+	// boundaries in between (zz_verif_c05_stats_test.go)
+	c05StatsCalls(out)
+	c05StatsSessions(out)
 }
 
 // TestVerifC05Race runs the Proxy scenarios (fixed ones and a few random ones) under the race detector:
@@ -1555,6 +1559,8 @@ func c05Replay(t *testing.T, out *vlib.Out, path string) {
 					fmt.Println("REPLAY impl      :", ans)
 				}
 			}
+		default:
+			c05StatsReplay(out, line)
 		}
 	}
 }
